@@ -559,3 +559,7 @@ CHECKS["C19"]["exhaustive_note"] = "the 259 notification patterns of the timing 
 CHECKS["C11"]["jobs"].append(J("smallscope", AGENT, "TestC11SmallScope", {"shards": 2, "n": 8, "timeout": 900}, {"shards": 8, "n": 8, "timeout": 3000}, toolchain="go126", rapid=False))
 CHECKS["C11"]["required_classes"]["all"] += ["small-scope-exhaustive-pairs"]
 CHECKS["C11"]["exhaustive_note"] = "all 64 ordered pairs of the 8-operation alphabet on one upgradeable user, in both upgrade modes, are enumerated on every run (each run 4 times); all 512 ordered triples over the 8 thorough shards"
+
+CHECKS["C06"]["jobs"].append(J("table", AGENT, "TestC06Table", {"shards": 1, "timeout": 900}, toolchain="go126", rapid=False))
+CHECKS["C06"]["required_classes"]["all"] += ["authorisation-table-exhaustive"]
+CHECKS["C06"]["exhaustive_note"] = "the single-request authorisation table (endpoint x credential kind x target x actor x {exact, duplicate keys, missing field}) is enumerated completely on every run, each cell on a fresh agent"
